@@ -8,11 +8,15 @@
        ErrorRetrievingDependencies(p, v) / Failure("incompatible version") are only returned because
        the trace contains an error answer of that very callback (with that package and version), resp.
        a choose_version answer outside the offered set.
-   Not stated as a Coq theorem: that the error is the LAST consumed event (visible in Model/Solver.v:
-   each error answer returns immediately); this and the tie to the Rust code are decided by the fault
-   enumeration of the harness (a fault at every index of every base trace). *)
+   (3) [error_answer_is_last_call]: an error answer of should_cancel / choose_version / get_dependencies is
+       the LAST call the run makes (nothing follows it among the consumed calls), and
+   (4) [error_answer_gives_matching_error]: the outcome of a run that received such an answer is the matching
+       error, carrying for get_dependencies the queried package and version.
+   The tie to the Rust code is the fault enumeration of the harness (a fault at every index of every base trace). *)
 From Coq Require Import List NArith Bool.
 From PG Require Import Model.VS Model.Term Model.Solver Proofs.SolverTrace.
+From PG Require Import Proofs.SolverFaults.
+Import ListNotations.
 
 Section C13.
   Context {VS Vr : Type} (O : VSOps VS Vr) (veqb : Vr -> Vr -> bool).
@@ -35,7 +39,31 @@ Section C13.
       | _ => True
       end.
   Proof. intros H1 H2 fuel r v tr. exact (resolve_outcome_explained O veqb H1 H2 fuel r v tr). Qed.
+
+  Theorem error_answer_is_last_call :
+    forall fuel r v (tr : list (event (VS := VS) (Vr := Vr))) o st log k,
+      resolve O veqb fuel r v tr = (o, st, log, k) ->
+      forall pre e rest, firstn k tr = pre ++ e :: rest -> is_err e = true -> rest = [].
+  Proof. exact (resolve_error_answer_last O veqb). Qed.
+
+  Theorem error_answer_gives_matching_error :
+    (forall a b, veqb a b = true -> a = b) ->
+    forall fuel r v (tr : list (event (VS := VS) (Vr := Vr))) o st log k,
+      resolve O veqb fuel r v tr = (o, st, log, k) ->
+      forall e, In e (firstn k tr) -> is_err e = true -> err_outcome e = Some o.
+  Proof. exact (resolve_error_answer_outcome O veqb). Qed.
+
+  (* reading of the two definitions *)
+  Theorem is_err_iff : forall e : event (VS := VS) (Vr := Vr),
+      is_err e = true <-> e = EvCancel false \/ (exists p s, e = EvChoose p s CErr) \/ (exists p v, e = EvDeps p v DErr).
+  Proof.
+    intros [[|]| |p s [v| |]|p v [d|m|]]; cbn; split; intros H; try discriminate; try reflexivity; eauto;
+      destruct H as [H|[(? & ? & H)|(? & ? & H)]]; discriminate.
+  Qed.
 End C13.
 
 Print Assumptions resolve_trace_prefix.
 Print Assumptions resolve_error_outcome_explained.
+Print Assumptions error_answer_is_last_call.
+Print Assumptions error_answer_gives_matching_error.
+Print Assumptions is_err_iff.
